@@ -1471,6 +1471,18 @@ def check_C11(tier, seed):
         qc.add(W, [q], [{"op": "abandon", "qi": 1, "k": rng.randint(1, 2)}, {"op": "infer", "qi": 1}, {"op": "infer", "qi": 1}],
                tag="abandoned-first")
 
+    # bodies that combine conditions on x alone with conditions on y alone (a disjunction over different variable sets: an
+    # assignment that satisfies both branches is still one assignment)
+    ind = run.export("GenQuery", "G1x-bodies", "PROG", constants=dict(G="G1x", NV=2, LeafLimit=6, MaxLeaves=3, MaxNot=0, NeedNot=False),
+                     count=False)
+    ind = [p for p in ind if len(normalize(dict(p, vars=[]), 2)["_used"]) == 2]
+    allheads = [h for h in {json.dumps(p["head"], sort_keys=True) for p in progs}]
+    for _ in range(400 if quick else 8000):
+        W, doms = _world_and_doms(rng, 2, quick)
+        q = {"vars": [{"cls": "A", "dom": doms[0]}, {"cls": "A", "dom": doms[1]}], "flats": [], "bound": [],
+             "desc": "entity", "quant": "infer", "sel": [], "cond": rng.choice(ind)["cond"],
+             "head": json.loads(rng.choice(allheads)), "varkeys": [1, 2]}
+        qc.add(W, [q], [{"op": "infer", "qi": 1}, {"op": "infer", "qi": 1}], tag="independent-conditions")
     # heads with a sub-query argument over y, bodies over x alone (the body does not bind the argument's variable)
     subheads = [h for h in {json.dumps(p["head"], sort_keys=True) for p in progs} if '"k": "sub"' in h]
     xbodies = run.export("GenQuery", "G1-bodies", "PROG", constants=dict(G="G12", NV=1, LeafLimit=12, MaxLeaves=2, MaxNot=1,
